@@ -201,7 +201,7 @@ class Fn:
         if isinstance(e, ast.Subscript):
             sl = e.slice
             if isinstance(sl, ast.Slice) and sl.step is None:
-                if sl.lower is None and sl.upper is not None:
+                if sl.upper is not None and (sl.lower is None or (isinstance(sl.lower, ast.Constant) and sl.lower.value == 0)):
                     return f'(py_slice_to {self.ex(e.value)} {self.ex(sl.upper)})'
                 if sl.upper is None and sl.lower is not None:
                     return f'(py_slice_from {self.ex(e.value)} {self.ex(sl.lower)})'
@@ -211,6 +211,9 @@ class Fn:
         if isinstance(e, ast.BinOp):
             if isinstance(e.op, ast.BitAnd):
                 return f'(py_and {self.ex(e.left)} {self.ex(e.right)})'
+            if isinstance(e.op, ast.Mult) and isinstance(e.left, ast.Call) and dotted(e.left.func) == 'bytearray' and len(e.left.args) == 1 \
+                    and isinstance(e.left.args[0], ast.Constant) and e.left.args[0].value == b'\x00':
+                return f'(py_zero_bytes {self.ex(e.right)})'
             if isinstance(e.op, ast.Add):
                 return f'(py_add {self.ex(e.left)} {self.ex(e.right)})'
             if isinstance(e.op, ast.Sub):
@@ -233,6 +236,11 @@ class Fn:
                 return '(p_time w)'
             if f == 'len' and len(e.args) == 1:
                 return f'(py_len {self.ex(e.args[0])})'
+            if f == 'bytes' and len(e.args) == 1:
+                return f'(py_zero_bytes {self.ex(e.args[0])})'
+            if isinstance(e.func, ast.Attribute) and e.func.attr == 'rstrip' and len(e.args) == 1 \
+                    and isinstance(e.args[0], ast.Constant) and e.args[0].value == '\x00':
+                return f'(py_rstrip0 {self.ex(e.func.value)})'
             if f == 'UbxParser' and len(e.args) == 1 and getattr(self.mod, 'UbxParser', None) is not None \
                     and self.mod.UbxParser.__module__ == 'ubxlib.parser_ubx':
                 return f'(py_new_ubx_parser {self.ex(e.args[0])})'
@@ -571,7 +579,9 @@ class ObjFn(Fn):
     objmode = True
     prefix = 'gc_'
 
-    def __init__(self, mod, cls, name, known):
+    def __init__(self, mod, cls, name, known, prefix=None):
+        if prefix:
+            self.prefix = prefix
         super().__init__(mod, cls, name, known, (0, 0))
         self.params = ['self'] + self.params
         self.locals = ['self'] + [x for x in self.locals if x != 'self'] + ['aug__tmp']
@@ -612,6 +622,18 @@ class ObjFn(Fn):
             if len(c.args) != n:
                 err(c, f'{f}: expected {n} argument(s)')
             return f'(res_call ({prim} ' + ' '.join(self.ex(a) for a in c.args) + ') w)'
+        if f in ('struct.pack', 'struct.unpack', 'struct.calcsize') and c.args and not (isinstance(c.args[0], ast.Constant)):
+            import struct as _struct
+            if getattr(self.mod, 'struct', None) is not _struct:
+                err(c, 'struct is not the standard module')
+            if f == 'struct.calcsize' and len(c.args) == 1:
+                return f'(res_call (py_calcsize {self.ex(c.args[0])}) w)'
+            if len(c.args) == 2:
+                fn = 'py_struct_pack_v' if f == 'struct.pack' else 'py_struct_unpack_v'
+                return f'(res_call ({fn} {self.ex(c.args[0])} {self.ex(c.args[1])}) w)'
+        if isinstance(c.func, ast.Attribute) and c.func.attr in ('encode', 'decode') and not c.args:
+            fn = 'py_encode' if c.func.attr == 'encode' else 'py_decode'
+            return f'(res_call ({fn} {self.ex(c.func.value)}) w)'
         if f in ('struct.pack', 'struct.unpack') and len(c.args) == 2 and isinstance(c.args[0], ast.Constant) and isinstance(c.args[0].value, str):
             import struct as _struct
             if getattr(self.mod, 'struct', None) is not _struct:
@@ -700,6 +722,41 @@ def emit_cfgobj_v(path):
          'Open Scope N_scope.', '']
     for f in fns:
         L += f.record()
+    L += ['', 'Section G.', 'Context {E : Type} (B : backend E) (sk : list N).', 'Notation fres := (@fres E).', '']
+    for f in fns:
+        L.append(f.emit())
+        L.append('')
+    L.append('End G.')
+    text = '\n'.join(L) + '\n'
+    with open(path, 'w') as fh:
+        fh.write(text)
+    return text
+
+
+def emit_items_v(path):
+    """Item / Padding / CH pack and unpack (ubxlib/types.py) -> gen/ItemKernels.v"""
+    import ubxlib.types as mod
+    fns = []
+    for cls, pre, tag in ((mod.Item, 'gi_', 'i'), (mod.Padding, 'gp_', 'p'), (mod.CH, 'gh_', 'h')):
+        for m in ('pack', 'unpack'):
+            if m not in cls.__dict__:
+                raise TranslateError(f'{cls.__name__}.{m} is no longer defined in the class itself')
+            f = ObjFn(mod, cls, m, {}, prefix=pre)
+            f.short = tag + f.short
+            fns.append(f)
+    # the integer types only set fmt (and fmt_string for rendering): anything else would bypass Item.pack/unpack
+    for name in ('U1', 'U2', 'U4', 'I1', 'I2', 'I4', 'X1', 'X2', 'X4'):
+        k = getattr(mod, name)
+        if k.__bases__ != (mod.Item,) or any(m in k.__dict__ for m in ('pack', 'unpack')):
+            raise TranslateError(f'{name}: no longer a plain Item subclass')
+    L = ['(* GENERATED on every run by py/vlib/translate_req.py from ubxlib/types.py in /repo. Do not edit. *)',
+         'From Coq Require Import String.',
+         'From Ubx Require Import Fields Base Checksum Frame ParserUbx ParserNmea CfgKeys Request PySem.',
+         'Open Scope N_scope.', '']
+    for f in fns:
+        L += f.record()
+    L.append('Definition g_item_fmts : list (string * string) := [' + '; '.join(
+        f'({coq_str(n)}%string, {coq_str(getattr(mod, n).fmt)}%string)' for n in ('U1', 'U2', 'U4', 'I1', 'I2', 'I4', 'X1', 'X2', 'X4')) + '].')
     L += ['', 'Section G.', 'Context {E : Type} (B : backend E) (sk : list N).', 'Notation fres := (@fres E).', '']
     for f in fns:
         L.append(f.emit())
